@@ -18,6 +18,15 @@ CLAIMED = {
  "C07": ("model_checking", "REJECT accept lists vs ordered AccSet for all inputs (TLC) + trace validation of the visit order",
          "yy_acclist slices of every reachable state must equal the ordered accepting set of the reference automaton; in recorded executions the Tok events between two consumptions must follow Cands (decreasing length, then rule order); REJECT with -Cf/-CF must be refused.",
          "REJECT scripted only before the action edits the stream", "5 C07"),
+ "C05": ("model_checking", "Active() of FlexRules vs real tables from every (condition, at-bol) start state for all inputs (TLC) + trace validation of yybegin/push/pop/top histories",
+         "Rule activation is decided for all inputs by the product check from all 2*|SC| start states, for declarations rendered as prefixes and as scopes; recorded executions with scripted yybegin/yy_push_state/yy_pop_state/yy_top_state calls (stack depths crossing the 25-entry growth step, underflow) must be behaviours of FlexScanner (LIFO stack, underflow = reported fatal error, condition changes only by these calls).",
+         "declarations and histories sampled", "5 C05"),
+ "C08": ("model_checking", "trace validation of scripted yyless/yymore/yyunput/yyinput histories against FlexScanner (stream conservation)",
+         "Every recorded execution (nr/reentrant x %array/%pointer x buffer sizes 1..16 x read sizes 1..5) with scripted yyless/yymore/yyunput/yyinput calls must be a behaviour of the abstract stream machine: consumed + pending = input edited by the logged calls, at every step.",
+         "combinations the manual leaves undefined are not scripted (yyless/yymore after yyunput/yyinput in one action, REJECT after edits); open finding array-yyless-after-yymore", "5 C08"),
+ "C09": ("model_checking", "trace validation of yylineno at every action, return and edit (LinenoExact in FlexScanner) over all newline-capable pattern forms",
+         "For every syntactic form by which a rule can match a newline (literal, escapes, string, class, negated class, range, POSIX class and negation, (?s:.), {-}/{+}, definition, closure, trailing context, $, default rule) and for sampled rule sets, recorded executions must show yylineno = 1 + newlines consumed net of yyless/trailing context/yyunput/REJECT, plus yyinput; without the option the value never changes.",
+         "inputs and edit histories sampled", "5 C09"),
  "C17": ("model_checking", "exact reachability of 'rule r is selected' in the TLA+ reference automaton (TLC) compared with flex's warnings",
          "TLC enumerates every reachable item state of the reference automaton from every start state; the set of selectable rules is compared with flex's 'rule cannot be matched' and -s default-rule warnings (iff for plain rule sets, no-false-warning for REJECT/variable trailing context).",
          "rule sets sampled", "5 C17"),
